@@ -655,6 +655,7 @@ impl Check for C14 {
                 wit.promises[j] = Some(1 + rng.below(lo));
                 wit.promises[j2] = None;
                 wit.same_as_prev.clear();
+                wit.same_as_first.clear();
                 Pair::PromiseSwap { j, j2 }
             },
             4 if rng.chance(1, 3) => {
